@@ -20,7 +20,7 @@ LEVEL = "exploration"
 NEEDS_DEPS = ["numpy"]
 RULE = ("a case is one array from dtypes {bool, (u)int8-64, float16-64, complex, S, U, datetime64/timedelta64 with units, "
         "structured incl. nested / sub-array / mixed-endian fields, object} x byte order x shapes {0-d, (0,), (0,3), (1,), (7,), "
-        "(3,4), (2,3,4), ...} x layouts {C, F, sliced, transposed, offset view, negative stride, broadcast} x subclass "
+        "(3,4), (2,3,4), ..., 6 % spanning several 256 KiB read chunks, in thorough some beyond the 16 MiB write chunk} x layouts {C, F, sliced, transposed, offset view, negative stride, broadcast} x subclass "
         "{ndarray, np.matrix, user subclasses, memmap-backed}, alone or nested in containers with other arrays, x (A) "
         "compressor / level / protocol / target round trips, (B) mmap modes r, r+, c, w+, (C) loky / multiprocessing workers "
         "with max_nbytes in {None, size-1, size, size+1, '1K', 0}; distinct_nontrivial counts distinct (dtype, shape, layout, "
